@@ -24,6 +24,12 @@ func c08Race(version string, closeStream bool) vs.Verdict {
 }
 
 func c08RaceAs(prefix, version string, closeStream bool) vs.Verdict {
+	return c08RaceWith(prefix, version, closeStream, false)
+}
+
+// finalResponse: the write that races the resuming GET is the request's final response - the one
+// that completes the stream and removes it from the connection's table.
+func c08RaceWith(prefix, version string, closeStream, finalResponse bool) vs.Verdict {
 	f := &e1Fail{prefix: prefix}
 	ctx := context.Background()
 	vs.Quiet(true)
@@ -115,9 +121,12 @@ func c08RaceAs(prefix, version string, closeStream bool) vs.Verdict {
 		close(gdone)
 	})
 	vs.Go(func() {
-		if closeStream {
+		switch {
+		case closeStream:
 			cmds <- "closestream"
-		} else {
+		case finalResponse:
+			cmds <- "respond"
+		default:
 			cmds <- "notify"
 		}
 		close(wdone)
@@ -129,10 +138,12 @@ func c08RaceAs(prefix, version string, closeStream bool) vs.Verdict {
 		<-pdone // the POST exchange ends once the handler closed the stream
 	}
 	// one more live message and the response, then everything ends
-	cmds <- "notify"
-	vs.WaitIdle()
-	cmds <- "respond"
-	vs.WaitIdle()
+	if !finalResponse {
+		cmds <- "notify"
+		vs.WaitIdle()
+		cmds <- "respond"
+		vs.WaitIdle()
+	}
 	gcancel()
 	<-gdone
 	if closeStream && recG.Code == http.StatusConflict {
@@ -194,6 +205,8 @@ func TestVerifC08Race(t *testing.T) {
 	env.Run([]*verifx.Scenario{
 		vs.E1(t, "race/write-vs-resume/2025-06-18", env.Pick(2, 3), vs.Options{}, func() vs.Verdict { return c08Race("2025-06-18", false) }),
 		vs.E1(t, "race/write-vs-resume/2025-11-25", env.Pick(2, 3), vs.Options{}, func() vs.Verdict { return c08Race("2025-11-25", false) }),
+		vs.E1(t, "race/final-response-vs-resume/2025-06-18", env.Pick(2, 3), vs.Options{}, func() vs.Verdict { return c08RaceWith("c08 race", "2025-06-18", false, true) }),
+		vs.E1(t, "race/final-response-vs-resume/2025-11-25", env.Pick(2, 3), vs.Options{}, func() vs.Verdict { return c08RaceWith("c08 race", "2025-11-25", false, true) }),
 		vs.E1(t, "race/handler-closes-stream-vs-resume/2025-06-18", env.Pick(2, 3), vs.Options{}, func() vs.Verdict { return c08Race("2025-06-18", true) }),
 		vs.E1(t, "race/handler-closes-stream-vs-resume/2025-11-25", env.Pick(2, 3), vs.Options{}, func() vs.Verdict { return c08Race("2025-11-25", true) }),
 	})
